@@ -3,6 +3,7 @@ package props
 import (
 	"fmt"
 	"go/constant"
+	"go/types"
 	"math/big"
 	"strings"
 
@@ -21,8 +22,8 @@ func init() {
 			"C03.num: captures 1,2,3 flow through strconv.ParseUint(·,10,64), the error is tested, the failing edge returns the matching sentinel, the value reaches the field of the same name; captures 4,5 reach PreRelease/Build through copying conversions; L(capture k) = 0|[1-9][0-9]* for k ≤ 3. " +
 			"C03.skel: the formatter's append sequence read off SSA is the regexp's concatenation skeleton with the same literals in the same order. " +
 			"C03.valid: L(sem.preRelease) / L(sem.build) equal the projections of captures 4 / 5; Valid skips the test exactly when the field is empty, the formatter omits exactly when empty. S-ERRZERO, S-WRAP, C18.L for package sem. C03.alias: the strings stored into Ver are copies or immutable string values and package sem (and internal) do not import unsafe — the yielded pre-release and build texts cannot be views of the caller's bytes (sem part of C17.alias). The skeleton of sem.pattern (content of captures abstracted) is ^<1>.<2>.<3>[-<4>][+<5>]$: the matched text is the concatenation of its captures and the literals the formatter writes between them.",
-		NotDecided:  []string{"stdlib summaries (ParseUint exact or error, AppendUint canonical decimal)", "texts longer than MaxInputLength (1024) are rejected by the limit, outside the statement"},
-		Assumptions: []string{"regexp executes the automaton regexp/syntax compiles", "strconv.ParseUint(s,10,64) is exact or fails; AppendUint prints canonical decimal"},
+		NotDecided:  []string{"stdlib summaries (ParseUint exact or error, AppendUint canonical decimal)", "texts longer than MaxInputLength are rejected by the limit, outside the statement (the default is only required to admit every version without pre-release and build, 63 bytes)"},
+		Assumptions: []string{"'formatting the result reproduces the input' is read per form: a Ver does not record the form it was parsed from, so the version-form text is reproduced by the version-form formatters (String, MarshalText, %v) and the tag-form text by the tag-form ones (StringTag, %t); C03.skel decides both forms separately", "regexp executes the automaton regexp/syntax compiles", "strconv.ParseUint(s,10,64) is exact or fails; AppendUint prints canonical decimal"},
 		Technique:   "regular-language equality on DFAs (two independent oracles) + decision-table extraction + dataflow over go/ssa",
 	})
 }
@@ -61,13 +62,25 @@ func runC03(e *Env) {
 	ruleErrZero(e, "C03.errzero", "sem")
 	ruleWrap(e, "C03.wrap", "sem")
 	ruleLimitAccept(e, "C03.limit", "sem")
+	// the default limit: a version without pre-release and build is valid whatever its numbers, so its text — at most
+	// 'v' + three 20-digit numbers + two dots = 63 bytes — parses back only if the limit is off or at least that
+	if g := e.Var("C03.limit", "sem", "MaxInputLength"); g != nil {
+		const longestCore = 1 + 3*20 + 2
+		if v, ok := e.globalIntInit(g); !ok {
+			e.S.Unk("C03.limit", "sem.MaxInputLength", "default", "initial value is not a constant", "")
+		} else if v != 0 && v < longestCore {
+			e.S.Bad("C03.limit", "sem.MaxInputLength", "default", fmt.Sprintf("the default limit %d is below the %d bytes of the longest version without pre-release and build: a value that reports itself valid does not parse back from its own text", v, longestCore), "", "New(math.MaxUint64, math.MaxUint64, math.MaxUint64)")
+		} else {
+			e.S.Ok("C03.limit", "sem.MaxInputLength", "default", fmt.Sprintf("default limit %d admits every version without pre-release and build (at most %d bytes)", v, longestCore), "")
+		}
+	}
 	ruleTyped(e, "C03.typed", "sem")
 	ruleDeleg(e, "C03.deleg", "sem")
 	e.S.Floor("C03.deleg", 12)
 	e.S.Floor("C03.typed", 1)
 	e.S.Floor("C03.errzero", 10)
 	e.S.Floor("C03.wrap", 10)
-	e.S.Floor("C03.limit", 2)
+	e.S.Floor("C03.limit", 3)
 	// "the literal pre-release and build texts": the Ver's strings are the parser's own copies, not views of the
 	// caller's bytes (C17.alias, sem part)
 	// "reject everything else": a failed match ends in an error
@@ -254,13 +267,31 @@ func ruleSemGate(e *Env, rule, numRule string) {
 	// shortest word of the pattern: under the table's standing assumption "the pattern matched" the subject is at least
 	// that long, so a length pre-filter below it never fires
 	minSubject := int64(0)
+	numCap := 0
 	if g := e.V("sem", "pattern"); g != nil {
 		if re := e.C.RegexpOfGlobal(g); re != nil {
 			minSubject = int64(flow.MinLen(re))
+			numCap = re.MaxCap()
 		}
 	}
+	// three worlds: the limit switched off (0), the limit set and the text within it (what the shipped default is), and
+	// the empty text; the decision table must be the same in the first two, the empty text is refused in the third
+	world := "limit off"
 	fixed := func(a, b pred.Val) (int, bool, bool) {
 		as, bs := a.String(), b.String()
+		if world == "empty" && as == "len(input)" && bs == "0" {
+			return 0, true, true
+		}
+		if world == "limit on" {
+			switch {
+			case as == "*sem.MaxInputLength" && bs == "0":
+				return 1, true, true
+			case as == "len(input)" && bs == "*sem.MaxInputLength":
+				return -1, true, true
+			case as == "*sem.MaxInputLength" && bs == "len(input)":
+				return 1, true, true
+			}
+		}
 		if as == "len(input)" || as == "len(slice[1:](input))" {
 			if c, ok := b.(pred.Const); ok && c.V != nil && c.V.Kind() == constant.Int {
 				if k, exact := constant.Int64Val(c.V); exact && k > 0 && k < minSubject {
@@ -279,6 +310,8 @@ func ruleSemGate(e *Env, rule, numRule string) {
 			return -1, true, true
 		case (strings.HasPrefix(as, "len((*regexp.Regexp).FindSubmatch(") || strings.HasPrefix(as, "len((*regexp.Regexp).FindStringSubmatch(")) && bs == "0":
 			return 1, true, true
+		case (strings.HasPrefix(as, "len((*regexp.Regexp).FindSubmatch(") || strings.HasPrefix(as, "len((*regexp.Regexp).FindStringSubmatch(")) && numCap > 0 && bs == fmt.Sprint(numCap+1):
+			return 0, true, true // a match has one entry per group plus one
 		case (strings.HasPrefix(as, "(*regexp.Regexp).FindSubmatch(") || strings.HasPrefix(as, "(*regexp.Regexp).FindStringSubmatch(")) && bs == "nil":
 			return 1, true, true // `parts == nil` is the same test as `len(parts) == 0` for a sub-match result
 		}
@@ -298,105 +331,136 @@ func ruleSemGate(e *Env, rule, numRule string) {
 		}
 		return []int{0, 1}
 	}
-	leaves, err := extractTree(e.P.SSA, ut, e.Permuted("sem", "unmarshalText", ut, mk), nil, fixed, keyOf, lenDomain)
-	if err != nil {
-		e.S.Unk(rule, site, "table", err.Error(), e.Pos(ut))
-		return
-	}
 	sentinels := []string{"", "ErrInvalidMajor", "ErrInvalidMinor", "ErrInvalidPatch"}
 	fieldNames := []string{"Major", "Minor", "Patch", "PreRelease", "Build"}
-	for _, lf := range leaves {
-		construct := lf.String()
-		if lf.Err != nil {
-			e.S.Unk(rule, site, construct, lf.Err.Error(), e.Pos(ut))
-			continue
-		}
-		t, ok := lf.Out.Ret.(pred.Tuple)
-		if !ok || len(t) != 2 {
-			e.S.Unk(rule, site, construct, lf.Out.Ret.String(), e.Pos(ut))
-			continue
-		}
-		get := func(k string) int {
-			v, ok := lf.Assign[k]
-			if !ok {
-				return 2
-			}
-			if v == 0 {
-				return 1
-			}
-			return 0
-		}
-		isV := get("input[0]==118")
-		errk := semErrKind(t[1])
-		// which subject the pattern is applied to
-		subject := "input"
-		if isV == 1 {
-			subject = "slice[1:](input)"
-		}
-		// sibling idioms: the pattern applied to the bytes (FindSubmatch) or to their string form (FindStringSubmatch)
-		find := "FindSubmatch"
-		for k := range lf.Assign {
-			if strings.Contains(k, "(*regexp.Regexp).FindStringSubmatch(") {
-				find = "FindStringSubmatch"
+	fieldIndex := map[string]int{}
+	if sp := e.P.ByName["sem"]; sp != nil && sp.Type("Ver") != nil {
+		if st, ok := sp.Type("Ver").Type().Underlying().(*types.Struct); ok {
+			for i := 0; i < st.NumFields(); i++ {
+				fieldIndex[st.Field(i).Name()] = i
 			}
 		}
-		parseErr := func(k int) string {
-			return fmt.Sprintf("nil? strconv.ParseUint#1((*regexp.Regexp).%s(*sem.%s,%s)[%d],10,64)", find, e.vname("sem", "pattern"), subject, k)
+	}
+	for _, w := range []string{"limit off", "limit on", "empty"} {
+		world = w
+		suffix := ""
+		if w != "limit off" {
+			suffix = " [" + w + "]"
 		}
-		want := "?"
-		switch {
-		case isV == 1 && get(kTag) == 1: // masked == 0 ⇒ tag form not allowed
-			want = "ParseError(ErrTagFormNotAllowed)"
-		case isV == 0 && get(kVer) == 1:
-			want = "ParseError(ErrExpectedTagForm)"
-		case isV != 2 && (isV == 1 && get(kTag) == 0 || isV == 0 && get(kVer) == 0):
-			want = "nil"
-			for k := 1; k <= 3; k++ {
-				v := get(parseErr(k))
-				if v == 0 { // not nil ⇒ number too large
-					want = "ParseError(" + sentinels[k] + ")"
-					break
+		leaves, err := extractTree(e.P.SSA, ut, e.Permuted("sem", "unmarshalText", ut, mk), nil, fixed, keyOf, lenDomain)
+		if err != nil {
+			e.S.Unk(rule, site, "table"+suffix, err.Error(), e.Pos(ut))
+			return
+		}
+		for _, lf := range leaves {
+			construct := lf.String() + suffix
+			if lf.Err != nil {
+				e.S.Unk(rule, site, construct, lf.Err.Error(), e.Pos(ut))
+				continue
+			}
+			t, ok := lf.Out.Ret.(pred.Tuple)
+			if !ok || len(t) != 2 {
+				e.S.Unk(rule, site, construct, lf.Out.Ret.String(), e.Pos(ut))
+				continue
+			}
+			if w == "empty" {
+				// the empty text is not a word of the grammar: refused with the typed error and a zero value
+				sv, isS := t[0].(*pred.StructV)
+				if ek := semErrKind(t[1]); strings.HasPrefix(ek, "ParseError(") && isS && allZero(sv) {
+					e.S.Ok(rule, site, construct, "the empty text is refused: "+ek+", zero value", e.Pos(ut))
+				} else {
+					e.S.Bad(rule, site, construct, "for the empty text the outcome is ("+t[0].String()+", "+ek+"); the empty text is not a version: documented a typed parse error and a zero value", e.Pos(ut), `Parse("")`)
 				}
-				if v == 2 {
-					want = "?"
-					break
+				continue
+			}
+			get := func(k string) int {
+				v, ok := lf.Assign[k]
+				if !ok {
+					return 2
+				}
+				if v == 0 {
+					return 1
+				}
+				return 0
+			}
+			isV := get("input[0]==118")
+			errk := semErrKind(t[1])
+			// which subject the pattern is applied to
+			subject := "input"
+			if isV == 1 {
+				subject = "slice[1:](input)"
+			}
+			// sibling idioms: the pattern applied to the bytes (FindSubmatch) or to their string form (FindStringSubmatch)
+			find := "FindSubmatch"
+			for k := range lf.Assign {
+				if strings.Contains(k, "(*regexp.Regexp).FindStringSubmatch(") {
+					find = "FindStringSubmatch"
 				}
 			}
-		}
-		switch {
-		case want == "?":
-			e.S.Bad(rule, site, construct, "outcome "+errk+" is decided without the tests the documented gate needs (first byte 'v', allowed forms, the three numeric conversions)", e.Pos(ut), "")
-			continue
-		case errk != want:
-			e.S.Bad(rule, site, construct, "error "+errk+", documented "+want, e.Pos(ut), "")
-			continue
-		}
-		if want != "nil" {
-			if sv, ok := t[0].(*pred.StructV); !ok || !allZero(sv) {
-				e.S.Bad(rule, site, construct, "a non-zero value "+t[0].String()+" is returned with the error", e.Pos(ut), "")
-			} else {
-				e.S.Ok(rule, site, construct, "error "+want+", zero value", e.Pos(ut))
+			parseErr := func(k int) string {
+				return fmt.Sprintf("nil? strconv.ParseUint#1((*regexp.Regexp).%s(*sem.%s,%s)[%d],10,64)", find, e.vname("sem", "pattern"), subject, k)
 			}
-			continue
-		}
-		e.S.Ok(rule, site, construct, "accepted", e.Pos(ut))
-		// C03.num: the success value
-		sv, ok := t[0].(*pred.StructV)
-		if !ok || len(sv.Fields) != 5 {
-			e.S.Unk(numRule, site, construct, "success value "+t[0].String()+" is not a Ver", e.Pos(ut))
-			continue
-		}
-		for i, f := range sv.Fields {
-			cap := fmt.Sprintf("(*regexp.Regexp).%s(*sem.%s,%s)[%d]", find, e.vname("sem", "pattern"), subject, i+1)
-			wantF := cap
-			if i < 3 {
-				wantF = "strconv.ParseUint#0(" + cap + ",10,64)"
+			want := "?"
+			switch {
+			case isV == 1 && get(kTag) == 1: // masked == 0 ⇒ tag form not allowed
+				want = "ParseError(ErrTagFormNotAllowed)"
+			case isV == 0 && get(kVer) == 1:
+				want = "ParseError(ErrExpectedTagForm)"
+			case isV != 2 && (isV == 1 && get(kTag) == 0 || isV == 0 && get(kVer) == 0):
+				want = "nil"
+				for k := 1; k <= 3; k++ {
+					v := get(parseErr(k))
+					if v == 0 { // not nil ⇒ number too large
+						want = "ParseError(" + sentinels[k] + ")"
+						break
+					}
+					if v == 2 {
+						want = "?"
+						break
+					}
+				}
 			}
-			c2 := fmt.Sprintf("%s (%s)", fieldNames[i], subject)
-			if f.String() == wantF {
-				e.S.Ok(numRule, site, c2, fieldNames[i]+" = "+map[bool]string{true: "ParseUint(capture, 10, 64)", false: "string(capture)"}[i < 3]+fmt.Sprintf(" of capture %d", i+1), e.Pos(ut))
-			} else {
-				e.S.Bad(numRule, site, c2, fmt.Sprintf("%s = %s, documented %s", fieldNames[i], f, wantF), e.Pos(ut), "")
+			switch {
+			case want == "?":
+				e.S.Bad(rule, site, construct, "outcome "+errk+" is decided without the tests the documented gate needs (first byte 'v', allowed forms, the three numeric conversions)", e.Pos(ut), "")
+				continue
+			case errk != want:
+				e.S.Bad(rule, site, construct, "error "+errk+", documented "+want, e.Pos(ut), "")
+				continue
+			}
+			if want != "nil" {
+				if sv, ok := t[0].(*pred.StructV); !ok || !allZero(sv) {
+					e.S.Bad(rule, site, construct, "a non-zero value "+t[0].String()+" is returned with the error", e.Pos(ut), "")
+				} else {
+					e.S.Ok(rule, site, construct, "error "+want+", zero value", e.Pos(ut))
+				}
+				continue
+			}
+			e.S.Ok(rule, site, construct, "accepted", e.Pos(ut))
+			// C03.num: the success value
+			sv, ok := t[0].(*pred.StructV)
+			if !ok || len(sv.Fields) != 5 || len(fieldIndex) != 5 {
+				e.S.Unk(numRule, site, construct, "success value "+t[0].String()+" is not a Ver", e.Pos(ut))
+				continue
+			}
+			for i := range fieldNames {
+				fi, known := fieldIndex[fieldNames[i]]
+				if !known {
+					e.S.Unk(numRule, site, construct, "Ver has no field "+fieldNames[i], e.Pos(ut))
+					continue
+				}
+				f := sv.Fields[fi] // by name: the order of declaration is free
+				cap := fmt.Sprintf("(*regexp.Regexp).%s(*sem.%s,%s)[%d]", find, e.vname("sem", "pattern"), subject, i+1)
+				wantF := cap
+				if i < 3 {
+					wantF = "strconv.ParseUint#0(" + cap + ",10,64)"
+				}
+				c2 := fmt.Sprintf("%s (%s)%s", fieldNames[i], subject, suffix)
+				if f.String() == wantF {
+					e.S.Ok(numRule, site, c2, fieldNames[i]+" = "+map[bool]string{true: "ParseUint(capture, 10, 64)", false: "string(capture)"}[i < 3]+fmt.Sprintf(" of capture %d", i+1), e.Pos(ut))
+				} else {
+					e.S.Bad(numRule, site, c2, fmt.Sprintf("%s = %s, documented %s", fieldNames[i], f, wantF), e.Pos(ut), "")
+				}
 			}
 		}
 	}
